@@ -4,6 +4,9 @@ import (
 	"crypto/sha512"
 	"encoding/base64"
 
+	"github.com/volatiletech/authboss/v3"
+	"github.com/volatiletech/authboss/v3/defaults"
+
 	"verifharness/verif"
 )
 
@@ -27,4 +30,49 @@ func SummaryGenerateOTP() (string, string, error) {
 	otp := verif.FreshString("otp", 35)
 	sum := sha512.Sum512([]byte(otp))
 	return otp, base64.StdEncoding.EncodeToString(sum[:]), nil
+}
+
+// LastTally holds the counts produced by the most recent SummaryTallyCharacters call (so that
+// harnesses can relate them to the decision the caller made).
+var LastTally [5]int
+
+// SummaryTallyCharacters: defaults.tallyCharacters — five non-negative class counts that
+// partition the characters of s (checked against the real body by C19_TallyCharacters).
+func SummaryTallyCharacters(s string) (upper, lower, numeric, symbols, whitespace int) {
+	n := len(s)
+	upper = verif.Int("tally_upper", 0, 64)
+	lower = verif.Int("tally_lower", 0, 64)
+	numeric = verif.Int("tally_numeric", 0, 64)
+	symbols = verif.Int("tally_symbols", 0, 64)
+	whitespace = n - upper - lower - numeric - symbols
+	verif.Assume(whitespace >= 0)
+	LastTally = [5]int{upper, lower, numeric, symbols, whitespace}
+	return
+}
+
+// Blank: the value consists of whitespace only (Go regexp \s: tab, newline, form feed, carriage return, space).
+func Blank(s string) bool { return verif.AllBytesIn(s, "\t\n\x0c\r  ") }
+
+// RulesAccept is the reference policy of defaults.Rules without MustMatch: required / length
+// window / per-class minima / whitespace rule, over the class counts of the value.
+func RulesAccept(r defaults.Rules, ln int, t [5]int, blank bool) bool {
+	req := verif.Not(verif.And(r.Required, verif.Or(ln == 0, blank)))
+	length := verif.And(verif.Not(verif.And(r.MinLength > 0, ln < r.MinLength)), verif.Not(verif.And(r.MaxLength > 0, ln > r.MaxLength)))
+	classes := verif.And(verif.And(t[0]+t[1] >= r.MinLetters, verif.And(t[0] >= r.MinUpper, t[1] >= r.MinLower)), verif.And(t[2] >= r.MinNumeric, t[3] >= r.MinSymbols))
+	ws := verif.Or(r.AllowWhitespace, t[4] == 0)
+	return verif.And(verif.And(req, length), verif.And(classes, ws))
+}
+
+// SummaryRulesErrors: (defaults.Rules).Errors — nil exactly when the reference policy accepts
+// (proved of the real body by C19_RulesExact), otherwise a non-empty error list.
+func SummaryRulesErrors(r defaults.Rules, s string) authboss.ErrorList {
+	u, l, n, sy, w := SummaryTallyCharacters(s)
+	ok := RulesAccept(r, len(s), [5]int{u, l, n, sy, w}, Blank(s))
+	if r.MustMatch != nil {
+		ok = verif.And(ok, verif.Or(verif.And(r.Required, verif.Or(len(s) == 0, Blank(s))), r.MustMatch.MatchString(s)))
+	}
+	if ok {
+		return nil
+	}
+	return authboss.ErrorList{defaults.NewFieldError(r.FieldName, ErrorsNew("does not meet the policy"))}
 }
